@@ -11,7 +11,7 @@ class C18(TreeCheck):
         "programs from g_fresh: canary descriptors (pipes, sockets, files; inheritable or not; low, high (50-1000) and sparse numbers) opened before "
         "the executor exists; env overlays (new keys, overrides, empty values) and parent-side environment changes; contexts loky / loky_init_main; "
         "initializer variants (none, token, failing on the n-th spawn, forcing memory-leak exits); bursts separated by pauses > timeout (respawn), "
-        "resize up (added workers); plus programs from g_exitstatus (bare LokyProcesses ending by os._exit/C exit/sys.exit codes and by terminating "
+        "resize up (added workers), a shutdown requested while slowly pickled work is on its way and workers idle out (respawn during the drain; 2 of 11 programs); plus programs from g_exitstatus (bare LokyProcesses ending by os._exit/C exit/sys.exit codes and by terminating signals, collected alternately by join() and by sentinel wait + join(timeout) "
         "signals). Observation at the earliest instant of the worker (sitecustomize, before prepare() and any user import). Profile run, delays (D) in "
         "the spawn path, jitter. Non-trivial = at least one worker start-up snapshot or exit status was compared; distinct = (context, kind, "
         "initializer variant, overlay keys, canary layout size, mode, injection function)."
@@ -28,7 +28,8 @@ class C18(TreeCheck):
             else:
                 # initializer variants are stratified: every run has failing initializers of each exception kind
                 fi = {1: ("fail_nth", "RuntimeError"), 2: ("fail_nth", "UserWarning"), 3: ("fail_nth", "SystemExit"), 4: ("leak0", None)}.get(i % 11, (None, None))
-                prog, meta = programs.g_fresh(rng, force_init=fi[0], force_exc=fi[1])
+                drain = i % 11 in (6, 9)
+                prog, meta = programs.g_fresh(rng, force_init="token" if drain else fi[0], force_exc=fi[1], force_drain=drain)
             out.append({"program": prog, "config": {"driver_as_module": bool(meta.get("as_module"))}, "meta": meta})
         if tier == "thorough":
             for ctx in ("loky", "loky_init_main"):
